@@ -1,6 +1,7 @@
 package vc
 
 import (
+	"sort"
 	"fmt"
 	"go/token"
 	"go/types"
@@ -616,6 +617,22 @@ func (f *frame) havocLoop(li *loopInfo, pre *State, guard string, entryIdx int) 
 		// names denote the values flowing into the loop (entry-edge phi operands)
 		env := f.loopEnv(li, li.header, entryIdx, pre)
 		pats = vc.assignPats(env, li.spec.Assigns)
+		// function-private locals (non-escaping allocations made before the loop)
+		// are implicitly part of every declared loop frame
+		var locals []string
+		localT := map[string]types.Type{}
+		for v, val := range f.vals {
+			if a, ok := v.(*ssa.Alloc); ok && !escapes(a) && val.T != "" {
+				locals = append(locals, val.T)
+				localT[val.T] = a.Type().Underlying().(*types.Pointer).Elem()
+			}
+		}
+		sort.Strings(locals)
+		for _, l := range locals {
+			for _, lf := range vc.leaves(localT[l]) {
+				pats = append(pats, modPat{sort: lf.sort, base: l, steps: lf.steps})
+			}
+		}
 		if f.declFrames == nil {
 			f.declFrames = map[*loopInfo]*declFrame{}
 		}
